@@ -296,7 +296,7 @@ func TestC20Health(t *testing.T) {
 	for _, s := range singles {
 		cases = append(cases, []c20Break{s})
 	}
-	for i := 0; i < pick(60, 3000); i++ {
+	for i := 0; i < pick(150, 3000); i++ {
 		k := 2 + rng.Intn(2)
 		var set []c20Break
 		used := map[string]bool{}
